@@ -75,9 +75,9 @@ Lemma lookup_uri_get po m : lookup_uri po (Some m) = ns_get po m.
 Proof. unfold lookup_uri. destruct m; [reflexivity|apply cq_ns_get]. Qed.
 
 Theorem qname_respelling : forall po po' local m m' a b a' b',
-  ConvQName.is_ncname local = true ->
-  match po with None => True | Some p => ConvQName.is_ncname p = true end ->
-  match po' with None => True | Some p => ConvQName.is_ncname p = true end ->
+  good_name local = true ->
+  good_prefix po ->
+  good_prefix po' ->
   forallb xml_ws a = true -> forallb xml_ws b = true -> forallb xml_ws a' = true -> forallb xml_ws b' = true ->
   (* the two spellings denote the same namespace name *)
   norm_uri (ns_get po m) = norm_uri (ns_get po' m') ->
@@ -98,9 +98,9 @@ Qed.
 
 (* the xsi:type of an element whose xsi:type value is re-spelled with the renamed map *)
 Theorem xsi_type_respelling : forall po po' local m m' attrs attrs',
-  ConvQName.is_ncname local = true ->
-  match po with None => True | Some p => ConvQName.is_ncname p = true end ->
-  match po' with None => True | Some p => ConvQName.is_ncname p = true end ->
+  good_name local = true ->
+  good_prefix po ->
+  good_prefix po' ->
   assoc XSI_TYPE attrs = Some (qlex po local) -> assoc XSI_TYPE attrs' = Some (qlex po' local) ->
   norm_uri (ns_get po m) = norm_uri (ns_get po' m') ->
   (norm_uri (ns_get po m) <> None \/ (po = None /\ po' = None)) ->
@@ -118,9 +118,9 @@ Qed.
 
 (* a QName-typed text or attribute value *)
 Theorem parse_value_respelling : forall po po' local m m' d fmt a b a' b',
-  ConvQName.is_ncname local = true ->
-  match po with None => True | Some p => ConvQName.is_ncname p = true end ->
-  match po' with None => True | Some p => ConvQName.is_ncname p = true end ->
+  good_name local = true ->
+  good_prefix po ->
+  good_prefix po' ->
   forallb xml_ws a = true -> forallb xml_ws b = true -> forallb xml_ws a' = true -> forallb xml_ws b' = true ->
   norm_uri (ns_get po m) = norm_uri (ns_get po' m') ->
   (norm_uri (ns_get po m) <> None \/ (po = None /\ po' = None)) ->
